@@ -180,6 +180,7 @@ type Gen struct {
 	opaqueDefs map[string]string // opaque pure func -> definitional axiom
 	revealed   map[string]bool
 	inlineDepth int
+	recoverTerm string // "the last recover() call of this function returned non-nil", "" when there is none
 }
 
 func newGen(c *Ctx, fn *ssa.Function, fc *FuncContract) *Gen {
@@ -212,6 +213,7 @@ func (g *Gen) reset() {
 	g.abstracted = map[string]int{}
 	g.callOrd = map[string]int{}
 	g.defers = nil
+	g.recoverTerm = ""
 	g.usedAxioms = map[string]bool{}
 	g.implIfaces = nil
 	g.closures = map[ssa.Value]*ssa.MakeClosure{}
